@@ -11,8 +11,15 @@ TEST = ["cargo", "nextest", "run", "--workspace", "--no-fail-fast", "--tool-conf
 
 
 def run_tests(repo):
-    r = subprocess.run(TEST, cwd=repo, capture_output=True, text=True, timeout=900)
-    out = r.stdout + r.stderr
+    # own process group: a mutant that makes a test spin for ever must not outlive the timeout
+    pr = subprocess.Popen(TEST, cwd=repo, stdout=subprocess.PIPE, stderr=subprocess.STDOUT, text=True, start_new_session=True)
+    try:
+        out, _ = pr.communicate(timeout=600)
+    except subprocess.TimeoutExpired:
+        import signal
+        os.killpg(pr.pid, signal.SIGKILL)
+        pr.communicate()
+        return "timeout", []
     if "error: could not compile" in out or re.search(r"^error(\[E\d+\])?:", out, re.M) and "Summary" not in out:
         return "nocompile", []
     m = re.search(r"Summary.*?(\d+) passed(?:, (\d+) failed)?", out)
